@@ -331,6 +331,14 @@ func auxAlphabet() []refimpl.AuxField {
 		add(refimpl.AuxField{Type: 'B', Sub: sub, Ints: []int64{1}})
 		add(refimpl.AuxField{Type: 'B', Sub: sub, Ints: []int64{0, 100, 7}})
 	}
+	// arrays holding the extreme and the sign-boundary values of their element type
+	for _, t := range []struct {
+		sub  byte
+		vals []int64
+	}{{'c', []int64{-128, -1, 127}}, {'C', []int64{127, 128, 255}}, {'s', []int64{-32768, -1, 32767}}, {'S', []int64{32767, 32768, 65535}},
+		{'i', []int64{math.MinInt32, -1, math.MaxInt32}}, {'I', []int64{math.MaxInt32, math.MaxInt32 + 1, math.MaxUint32}}} {
+		add(refimpl.AuxField{Type: 'B', Sub: t.sub, Ints: t.vals})
+	}
 	add(refimpl.AuxField{Type: 'B', Sub: 'f', Flts: []float32{}})
 	add(refimpl.AuxField{Type: 'B', Sub: 'f', Flts: []float32{1.5}})
 	add(refimpl.AuxField{Type: 'B', Sub: 'f', Flts: []float32{0, -2.25, 1e10}})
